@@ -52,6 +52,7 @@ def jobs(tier, seed):
         out.append(dict(name=f"steps-{solver}", kind="steps", solver=solver, devices=1, seed=seed, cost=10))
         out.append(dict(name=f"overrides-{solver}", kind="overrides", solver=solver, devices=1, seed=seed, cost=10))
         out.append(dict(name=f"errors-{solver}", kind="errors", solver=solver, devices=1, seed=seed, cost=3))
+        out.append(dict(name=f"reuse-{solver}", kind="reuse", solver=solver, devices=1, seed=seed, cost=40))
         for problem in ("forest", "de_moor", "hendrix", "mirjalili"):
             out.append(dict(name=f"real-{solver}-{problem}", kind="real", solver=solver, problem=problem, devices=1, seed=seed, cost=60))
     return out
@@ -76,7 +77,7 @@ def fill_symbolic(s, name, tag):
 
 def run_job(job):
     ob = Obligations(job)
-    return {"complete": run_complete, "steps": run_steps, "overrides": run_overrides, "errors": run_errors, "real": run_real}[job["kind"]](job, ob)
+    return {"complete": run_complete, "steps": run_steps, "overrides": run_overrides, "errors": run_errors, "real": run_real, "reuse": run_reuse}[job["kind"]](job, ob)
 
 
 def _explore(fn):
@@ -185,6 +186,24 @@ def run_steps(job, ob):
                 u = type(s).restore(d, step=step)
                 explicit[step] = (u.iteration, list(val_of(u.values)), list(val_of(store[step].values)))
             res.append(dict(h=h, committed=committed, default=got_default, default_want=list(val_of(store[max(committed)].values)), explicit=explicit))
+        # restore, save more, restore again (the second restore must see the later saves), and load_checkpoint likewise
+        inter = []
+        for a, b in ((1, 2), (1, 3), (2, 4)):
+            d = dirs.new()
+            s = ckkit.make_solver(name, ckkit.make_problem("forest"), ckdir=d, f=1, m=3, async_=True)
+            v = ckkit.make_solver(name, ckkit.make_problem("forest"))
+            seen = []
+            for j, step in enumerate((a, b)):
+                fill_symbolic(s, name, f"i{j}_")
+                s.iteration = step
+                want = list(val_of(s.values))
+                s.save(step)
+                s.checkpoint_manager.wait_until_finished()
+                t = type(s).restore(d)
+                v.load_checkpoint(d)
+                seen.append((step, t.iteration, list(val_of(t.values)), v.iteration, list(val_of(v.values)), want))
+            inter.append(dict(h=(a, b), seen=seen))
+        res.append(dict(inter=inter))
         return res
     for o in _explore(fn):
         if o.exc is not None:
@@ -195,6 +214,15 @@ def run_steps(job, ob):
             ob.prove("no-exception", o.pc, False, cex=lambda m, o=o: dict(kind="exc", exc=repr(o.exc)))
             continue
         for r in o.value:
+            if "inter" in r:
+                for it_ in r["inter"]:
+                    for step, ti, tv, vi, vv, want in it_["seen"]:
+                        cex = lambda m, it_=it_: dict(kind="steps", history=list(it_["h"]), interleaved=True)
+                        ob.prove(f"interleaved-restore{list(it_['h'])}@{step}", o.pc, zx.land(ti == step, _all_eq(tv, want)), cex=cex,
+                                 kind="restore() after further saves returns the latest completed step")
+                        ob.prove(f"interleaved-load{list(it_['h'])}@{step}", o.pc, zx.land(vi == step, _all_eq(vv, want)), cex=cex,
+                                 kind="load_checkpoint() after further saves returns the latest completed step")
+                continue
             cex = lambda m, r=r: dict(kind="steps", history=list(r["h"]), committed=r["committed"], default_iteration=r["default"][0])
             ob.prove(f"default==latest{list(r['h'])}", o.pc, zx.land(r["default"][0] == max(r["committed"]),
                                                                      _all_eq(r["default"][1], r["default_want"])), cex=cex,
@@ -379,6 +407,65 @@ def run_real(job, ob):
     return ob.result()
 
 
+def run_reuse(job, ob):
+    """Directories, configuration objects and managers that are used more than once (real Orbax, real YAML)."""
+    from omegaconf import OmegaConf
+    from mdpax.problems import Forest
+    name = job["solver"]
+    cls = kit.solver_class(name)
+    base = tempfile.mkdtemp(prefix="mdpv-reuse-")
+    cexf = lambda m: dict(kind="reuse", solver=name)
+    cfgcls = type(kit.make_solver(name, Forest(S=3)).config)
+    extra = dict(period=2) if name == "pvi" else {}
+    try:
+        # (1) one configuration object reused for a parameter sweep over problem instances
+        cfg = cfgcls(gamma=1.0 if name == "rvi" else 0.9, epsilon=1e-12, checkpoint_frequency=1, max_checkpoints=4,
+                     enable_async_checkpointing=False, verbose=0, max_batch_size=4, **extra)
+        runs = {}
+        for r1 in (4.0, 10.0):
+            cfg.checkpoint_dir = os.path.join(base, f"sweep{int(r1)}")
+            s = cls(problem=Forest(S=5, r1=r1, r2=2.0, p=0.1), config=cfg)
+            held = capture_saves(s)
+            s.solve(3)
+            runs[r1] = (cfg.checkpoint_dir, held, s)
+        for r1, (d, held, s) in runs.items():
+            t = cls.restore(d, new_checkpoint_dir=os.path.join(base, f"resume{int(r1)}"))
+            ob.prove(f"sweep-problem[r1={r1}]", [], float(t.problem.r1) == r1 and float(t.config.problem.r1) == r1 and int(t.problem.S) == 5, cex=cexf,
+                     kind="restore() rebuilds the problem of the run that wrote the directory (configuration object reused across runs)")
+            ob.prove(f"sweep-state[r1={r1}]", [], _state_equal(held[max(held)], t, name), cex=cexf,
+                     kind="restored state equals what that run held (configuration object reused across runs)")
+        # (2) restore, continue the original (more saves), restore again / load again
+        d, held, s = runs[10.0]
+        v = cls(problem=Forest(S=5, r1=10.0, r2=2.0, p=0.1), gamma=1.0 if name == "rvi" else 0.9, epsilon=1e-12, verbose=0, max_batch_size=4, **extra)
+        v.load_checkpoint(d)
+        s.solve(2)
+        t2 = cls.restore(d)
+        ob.prove("restore-after-more-saves", [], t2.iteration == max(held) == s.iteration and _state_equal(held[max(held)], t2, name, policy=False), cex=cexf,
+                 kind="restore() after further saves returns the latest completed step")
+        v.load_checkpoint(d)
+        # (the stored policy of a second solve() call is the subject of the complete-* jobs and their known finding)
+        ob.prove("load-after-more-saves", [], _state_equal(held[max(held)], v, name, policy=False), cex=cexf,
+                 kind="load_checkpoint() after further saves returns the latest completed step")
+        # (3) a directory used by an earlier run with other parameters
+        d3 = os.path.join(base, "shared")
+        a = cls(problem=Forest(S=5, r1=4.0, r2=2.0, p=0.1), gamma=1.0 if name == "rvi" else 0.9, epsilon=1e-3, checkpoint_dir=d3, checkpoint_frequency=1,
+                max_checkpoints=2, enable_async_checkpointing=False, verbose=0, **extra)
+        a.solve(2)
+        b = cls(problem=Forest(S=5, r1=7.0, r2=1.0, p=0.2), gamma=1.0 if name == "rvi" else 0.5, epsilon=1e-9, checkpoint_dir=d3, checkpoint_frequency=1,
+                max_checkpoints=2, enable_async_checkpointing=False, verbose=0, **extra)
+        heldb = capture_saves(b)
+        b.solve(4)
+        t3 = cls.restore(d3)
+        same_cfg = OmegaConf.to_container(OmegaConf.structured(t3.config)) == OmegaConf.to_container(OmegaConf.structured(b.config))
+        ob.prove("reused-directory-config", [], bool(same_cfg) and float(t3.gamma) == float(b.gamma) and float(t3.problem.r1) == 7.0, cex=cexf,
+                 kind="restore() of a directory reused by a later run gives that run's configuration")
+        ob.prove("reused-directory-state", [], _state_equal(heldb[max(heldb)], t3, name), cex=cexf,
+                 kind="restore() of a directory reused by a later run gives that run's state")
+    finally:
+        shutil.rmtree(base, ignore_errors=True)
+    return ob.result()
+
+
 class Held:
     """what a solver held at a given moment (deep copy of the fields the property lists)"""
 
@@ -411,10 +498,11 @@ def _eqv(a, b):
         return a == b
 
 
-def _state_equal(a, b, name):
+def _state_equal(a, b, name, policy=True):
     ok = a.iteration == b.iteration and np.array_equal(np.asarray(a.values), np.asarray(b.values)) and \
         np.asarray(a.values).dtype == np.asarray(b.values).dtype
-    ok = ok and ((a.policy is None) == (b.policy is None)) and (a.policy is None or np.array_equal(np.asarray(a.policy), np.asarray(b.policy)))
+    if policy:
+        ok = ok and ((a.policy is None) == (b.policy is None)) and (a.policy is None or np.array_equal(np.asarray(a.policy), np.asarray(b.policy)))
     if name == "rvi":
         ok = ok and float(a.gain) == float(b.gain)
     if name == "pvi":
@@ -436,9 +524,8 @@ def replay(data):
         except Exception as ex:
             return True, f"real run raised {type(ex).__name__}: {ex}"
     ob = Obligations(job)
-    if job["kind"] in ("real", "errors"):
-        run_job(job)
-        r = {"real": run_real, "errors": run_errors}[job["kind"]](job, ob)
+    if job["kind"] in ("real", "errors", "reuse"):
+        r = {"real": run_real, "errors": run_errors, "reuse": run_reuse}[job["kind"]](job, ob)
         bad = [v["obligation"] for v in ob.violations]
         return bool(bad), f"{job['name']}: failing {bad}" if bad else f"{job['name']}: all hold"
     # model-level counterexamples are confirmed on the real Orbax with concrete states; only the facts the failing
@@ -481,6 +568,18 @@ def replay(data):
             v.load_checkpoint(d)
             allbad = differs(held[3], t, "restore()") + differs(held[3], w, "restore(overrides)") + differs(held[3], v, "load_checkpoint()")
             bad = [b for b in allbad if field.split("_")[0] in b or (field in ("value_history", "history_index", "period") and "value_history" in b)]
+        elif obn.startswith("interleaved"):
+            d2 = os.path.join(base, "ck2")
+            s2 = ckkit.make_solver(name, ckkit.make_problem("forest"), ckdir=d2, f=1, m=3, async_=True, epsilon=1e-12)
+            v2 = ckkit.make_solver(name, ckkit.make_problem("forest"), epsilon=1e-12)
+            for k in (1, 2, 3):
+                s2.solve(1)
+                s2.checkpoint_manager.wait_until_finished()
+                t = cls.restore(d2)
+                v2.load_checkpoint(d2)
+                for what, x in (("restore()", t), ("load_checkpoint()", v2)):
+                    if x.iteration != s2.iteration or not np.array_equal(np.asarray(x.values), np.asarray(s2.values)):
+                        bad.append(f"{what} after the save of step {s2.iteration} gave iteration {x.iteration}")
         elif obn.startswith(("default==latest", "explicit-step")):
             t = cls.restore(d)
             if t.iteration != 3:
